@@ -833,6 +833,35 @@ func genFuzz(rng *h.Rng, emit func(string), thorough bool) {
 	if thorough {
 		emit("fzloop")
 	}
+	// nesting depth of a fetched document (14409e8): at the bound, one above, ordinary depths, flat documents
+	// whose strings / comments are full of brackets and tags, brackets closed inside strings only, and the
+	// depths a document below dataFetch's 16 MiB can reach (maxDocumentSize/2 JSON, /7 XML)
+	honest["deep json 3"], honest["deep xml 3"] = true, true
+	emit("deep json 3")
+	emit("deep xml 3")
+	for _, k := range []string{"json", "jsonobj", "jsonmix", "xml", "xmldesc"} {
+		for _, d := range []int{1, 64, 999, 1000, 1001, 2000} {
+			if k == "jsonmix" {
+				d /= 2 // two levels per repetition
+			}
+			if k == "xmldesc" && d >= 999 {
+				d-- // the text node is one level more
+			}
+			emit(fmt.Sprintf("deep %s %d", k, d))
+		}
+	}
+	emit("deep jsondesc 900")
+	emit("deep jsonstr 100000")
+	emit("deep xmlwide 100000")
+	emit("deep jsonmix 501")
+	emit("deep json 800000")
+	emit("deep json 8388608")
+	emit("deep jsonobj 1500000")
+	emit("deep jsonmix 700000")
+	emit("deep xml 2396745")
+	for i := 0; i < 6; i++ {
+		emit(fmt.Sprintf("deep %s %d", pick(rng, "json", "jsonobj", "jsonmix", "xml", "xmldesc"), 1+rng.Intn(pickInt(rng, 50, 1500, 3000, 3000000))))
+	}
 	// oversized documents
 	emit("fzfetch 1")
 	emit("fzfetch 48")
@@ -845,3 +874,5 @@ func genFuzz(rng *h.Rng, emit func(string), thorough bool) {
 var _ = ptypes.MarshalAny
 var _ kyber.Point
 var _ = p2p.NoDiscover
+
+func pickInt(r *h.Rng, xs ...int) int { return xs[r.Intn(len(xs))] }
